@@ -185,7 +185,11 @@ def gen_names(rng, small):
 
 
 def gen_strategy(rng):
-    kind = rng.choice(["random", "random", "pb", "pb", "pct"])
+    kind = rng.choice(["random", "random", "pb", "pb", "pct", "crit"])
+    if kind == "crit":
+        return dict(kind="crit", k=rng.choice([1, 2, 3]),
+                    q=rng.choice([0.05, 0.15, 0.4]),
+                    p=rng.choice([0.0, 0.02, 0.1]))
     if kind == "random":
         return dict(kind="random", p=rng.choice([0.02, 0.05, 0.1, 0.3, 1.0]))
     if kind == "pb":
@@ -346,6 +350,7 @@ class Sim(object):
         self.inflight = {}          # task -> request being executed
         self.last_by_key = {}
         self.tz_changes = 0
+        self.size_calls = []
 
     def _set_knob(self, cls, attr, value):
         if hasattr(cls, attr):
@@ -532,10 +537,19 @@ class Actor(object):
                 ctx.event(self.name, "cache_clear")
             return
         if k == "set_cache_size":
+            with K.mute():
+                inv = sim.tick()
             sim.tz.gettz.set_cache_size(op[1])
             with K.mute():
-                sim.gettz_size = op[1]
-                sim.tick()
+                ret = sim.tick()
+                # which of two overlapping calls took effect last is not
+                # observable: the bound is the largest size among the latest
+                # call and every call that overlapped it
+                sim.size_calls.append((inv, ret, op[1]))
+                last = sim.size_calls[-1]
+                sim.gettz_size = max(
+                    sz for (i0, r0, sz) in sim.size_calls
+                    if not (r0 < last[0] or i0 > last[1]))
                 sim.between_events += 1
                 ctx.event(self.name, "set_cache_size", op[1])
             return
